@@ -98,24 +98,25 @@ def oracle_c13(m0, series, cfg, o, after, exp, names):
         target = p[:-4]
         d = docs.get(os.path.join(root, p))
         entries = exp['rej_hunks'].get(target, [])
-        if len(entries) != 1:
-            continue  # two failing entries for one file: out of this model's scope (KF duplicate reject is checked separately)
-        fp, hunks = entries[0]
+        if not entries:
+            continue
         if not d or not d.get('ok'):
             v.append((c, 'reject-unparseable', witness(m0, series, cfg, {'reject': p, 'content': common.b2s(rej[p]), 'observed': d})))
             continue
         fps = d['file_patches']
-        if len(fps) != 1:
-            v.append((c, 'reject-file-patches', witness(m0, series, cfg, {'reject': p, 'content': common.b2s(rej[p]), 'observed': len(fps)})))
+        # one section per failing entry of the patch for this file (normally one), in the order of the patch
+        if len(fps) != len(entries):
+            v.append((c, 'reject-file-patches', witness(m0, series, cfg, {'reject': p, 'content': common.b2s(rej[p]), 'expected': len(entries), 'observed': len(fps)})))
             continue
-        names_in = {common.s2b(x).decode(errors='replace') for x in (fps[0]['old'], fps[0]['new']) if x is not None}
-        # written with strip 0 after the names were stripped: the target itself must be named
-        if target not in names_in:
-            v.append((c, 'reject-names', witness(m0, series, cfg, {'reject': p, 'expected': target, 'observed': sorted(names_in)})))
-        got_h = [(h['old_start'], [common.s2b(x) for x in h['old']], h['new_start'], [common.s2b(x) for x in h['new']]) for h in fps[0]['hunks']]
-        want_h = [(a, list(b), c2, list(d2)) for (a, b, c2, d2) in hunks]
-        if got_h != want_h:
-            v.append((c, 'reject-hunks', witness(m0, series, cfg, {'reject': p, 'content': common.b2s(rej[p]), 'expected': repr(want_h), 'observed': repr(got_h)})))
+        for sect, (fp, hunks) in zip(fps, entries):
+            names_in = {common.s2b(x).decode(errors='replace') for x in (sect['old'], sect['new']) if x is not None}
+            # written with strip 0 after the names were stripped: the target itself must be named
+            if target not in names_in:
+                v.append((c, 'reject-names', witness(m0, series, cfg, {'reject': p, 'expected': target, 'observed': sorted(names_in)})))
+            got_h = [(h['old_start'], [common.s2b(x) for x in h['old']], h['new_start'], [common.s2b(x) for x in h['new']]) for h in sect['hunks']]
+            want_h = [(a, list(b), c2, list(d2)) for (a, b, c2, d2) in hunks]
+            if got_h != want_h:
+                v.append((c, 'reject-hunks', witness(m0, series, cfg, {'reject': p, 'content': common.b2s(rej[p]), 'expected': repr(want_h), 'observed': repr(got_h), 'entries_for_this_file': len(entries)})))
     return v
 
 
